@@ -27,6 +27,9 @@ import (
 	"k8s.io/klog"
 )
 
+// impersonateHeaderPrefix is the lower case prefix of all impersonation headers
+const impersonateHeaderPrefix = "impersonate-"
+
 type requestCanceler interface {
 	CancelRequest(*http.Request)
 }
@@ -67,6 +70,14 @@ func (rt *dynamicImpersonatingRoundTripper) WrapRequest(req *http.Request) (*htt
 	}
 
 	req = net.CloneRequest(req)
+	// nothing of the Impersonate-* family sent by the client may reach the upstream,
+	// e.g. Impersonate-Uid: the upstream trusts the gateway's credential for all of them.
+	// The impersonation headers are generated from the request user only.
+	for headerName := range req.Header {
+		if strings.HasPrefix(strings.ToLower(headerName), impersonateHeaderPrefix) {
+			delete(req.Header, headerName)
+		}
+	}
 	req.Header.Set(transport.ImpersonateUserHeader, requestor.GetName())
 
 	for _, group := range requestor.GetGroups() {
